@@ -194,3 +194,153 @@ impl<'s> ParseState<'s> {
 spec fn none_follows<const N: usize>(excepts: [&str; N], t: Seq<char>) -> bool {
     forall|k: int| 0 <= k < N ==> !(#[trigger] excepts[k])@.is_prefix_of(t)
 }
+// ---- skip_until_* and the comment skipper ----
+proof fn lemma_find_first(t: Seq<char>, u: Seq<char>, i: int)
+    requires 0 <= i <= t.len(),
+    ensures ({
+        let k = find_first(t, u, i);
+        &&& (k >= 0 ==> i <= k <= t.len() && u.is_prefix_of(t.skip(k)) && k + u.len() <= t.len())
+        &&& (k < 0 ==> forall|j: int| i <= j <= t.len() ==> !u.is_prefix_of(#[trigger] t.skip(j)))
+        &&& (k >= 0 ==> forall|j: int| i <= j < k ==> !u.is_prefix_of(#[trigger] t.skip(j)))
+    }),
+    decreases t.len() - i,
+{
+    if !u.is_prefix_of(t.skip(i)) && i < t.len() { lemma_find_first(t, u, i + 1); }
+}
+/// `*/` search of the comment skipper, phrased with find_first
+proof fn lemma_comment_end(t: Seq<char>, i: int)
+    requires 0 <= i <= t.len(),
+    ensures comment_end(t, i) == find_first(t, seq!['*', '/'], i),
+    decreases t.len() - i,
+{
+    let u = seq!['*', '/'];
+    if i + 1 >= t.len() {
+        assert(!u.is_prefix_of(t.skip(i))) by { if u.is_prefix_of(t.skip(i)) { assert(u.len() <= t.skip(i).len()); } }
+        if i < t.len() {
+            assert(!u.is_prefix_of(t.skip(i + 1))) by { if u.is_prefix_of(t.skip(i + 1)) { assert(u.len() <= t.skip(i + 1).len()); } }
+            reveal_with_fuel(find_first, 3);
+        }
+    } else {
+        if t[i] == '*' && t[i + 1] == '/' {
+            assert(u =~= t.skip(i).subrange(0, 2));
+        } else {
+            if u.is_prefix_of(t.skip(i)) { assert(u[0] == t.skip(i)[0] && u[1] == t.skip(i)[1]); }
+            lemma_comment_end(t, i + 1);
+        }
+    }
+}
+proof fn lemma_find_shift(t: Seq<char>, u: Seq<char>, i: int, j: int)
+    requires 0 <= i, 0 <= j, i + j <= t.len(),
+    ensures find_first(t.skip(i), u, j) == (if find_first(t, u, i + j) >= 0 { find_first(t, u, i + j) - i } else { -1 }),
+    decreases t.len() - i - j,
+{
+    assert(t.skip(i).skip(j) =~= t.skip(i + j));
+    lemma_find_first(t, u, i + j);
+    if !u.is_prefix_of(t.skip(i + j)) && i + j < t.len() { lemma_find_shift(t, u, i, j + 1); }
+}
+/// one round of the comment skipper on a text that starts with `/*`
+proof fn lemma_ws_js_comment(t: Seq<char>)
+    requires t.len() >= 2, t[0] == '/', t[1] == '*',
+    ensures ({
+        let kk = find_first(t.skip(2), seq!['*', '/'], 0);
+        &&& ws_len(t) == 0
+        &&& (kk >= 0 ==> kk + 4 <= t.len() && ws_js_len(t) == 2 + kk + 2 + ws_js_len(t.skip(2 + kk + 2)))
+        &&& (kk < 0 ==> ws_js_len(t) == t.len())
+    }),
+{
+    let u = seq!['*', '/'];
+    lemma_comment_end(t, 2);
+    lemma_find_shift(t, u, 2, 0);
+    lemma_find_first(t, u, 2);
+    assert(!is_tws(t[0]));
+}
+proof fn lemma_ws_js_ws(t: Seq<char>)
+    requires ws_len(t) > 0,
+    ensures ws_len(t) <= t.len(), ws_js_len(t) == ws_len(t) + ws_js_len(t.skip(ws_len(t))),
+{
+    lemma_ws_len_bound(t);
+}
+proof fn lemma_ws_len_bound(t: Seq<char>)
+    ensures 0 <= ws_len(t) <= t.len(),
+    decreases t.len(),
+{
+    if t.len() > 0 && is_tws(t[0]) { lemma_ws_len_bound(t.skip(1)); }
+}
+proof fn lemma_ws_js_none(t: Seq<char>)
+    requires ws_len(t) == 0, !(t.len() >= 2 && t[0] == '/' && t[1] == '*'),
+    ensures ws_js_len(t) == 0,
+{
+}
+/// no character boundary lies strictly inside the first character
+proof fn lemma_first_boundary(t: Seq<char>, b: int)
+    requires t.len() > 0, 0 < b < boff(t, 1),
+    ensures !is_boundary(t, b),
+{
+    if is_boundary(t, b) {
+        let j = choose|j: int| 0 <= j <= t.len() && boff(t, j) == b;
+        assert(boff(t, 0) == 0);
+        if j >= 1 { if j > 1 { lemma_boff_lt(t, 1, j); } }
+    }
+}
+#[verifier::external_body]
+fn vx_log_error() { }
+/// one whitespace round of the comment skipper
+proof fn lemma_js_step_ws(o: &ParseState, s1: &ParseState, s2: &ParseState, k: int)
+    requires o.wf(), s1.advanced(o, k), s2.advanced(s1, ws_len(s1.rest())), ws_len(s1.rest()) > 0,
+    ensures
+        s2.advanced(o, k + ws_len(s1.rest())),
+        ws_js_len(s1.rest()) == ws_len(s1.rest()) + ws_js_len(s2.rest()),
+        s2.rest().len() < s1.rest().len(),
+{
+    let t = s1.rest();
+    lemma_ws_js_ws(t);
+    lemma_advanced_trans(o, s1, s2, k, ws_len(t));
+    lemma_ci(s2); lemma_ci(s1);
+    assert(s2.rest() =~= t.skip(ws_len(t)));
+}
+/// one comment round: `/*` skipped (s3), then up to and including `*/` or to the end (s4)
+proof fn lemma_js_step_comment(o: &ParseState, s2: &ParseState, s3: &ParseState, s4: &ParseState, k: int)
+    requires
+        o.wf(), s2.advanced(o, k), s2.rest().len() >= 2, s2.rest()[0] == '/', s2.rest()[1] == '*',
+        s3.advanced(s2, 2),
+        ({
+            let kk = find_first(s3.rest(), seq!['*', '/'], 0);
+            (kk >= 0 ==> s4.advanced(s3, kk + 2)) && (kk < 0 ==> s4.advanced(s3, s3.rest().len() as int))
+        }),
+    ensures ({
+        let m = ws_js_len(s2.rest()) - ws_js_len(s4.rest());
+        &&& m >= 2
+        &&& s4.advanced(o, k + m)
+        &&& s4.rest().len() < s2.rest().len()
+    }),
+{
+    let t = s2.rest();
+    lemma_ws_js_comment(t);
+    lemma_ci(s2); lemma_ci(s3); lemma_ci(s4);
+    assert(s3.rest() =~= t.skip(2));
+    let kk = find_first(t.skip(2), seq!['*', '/'], 0);
+    let m = if kk >= 0 { kk + 2 } else { t.skip(2).len() as int };
+    lemma_advanced_trans(s2, s3, s4, 2, m);
+    lemma_advanced_trans(o, s2, s4, k, 2 + m);
+    assert(s4.rest() =~= t.skip(2 + m));
+    if kk < 0 { assert(t.skip(2 + m) =~= Seq::<char>::empty()); assert(ws_js_len(Seq::<char>::empty()) == 0); }
+}
+/// `/*` is two one-byte characters
+proof fn lemma_slash_star(t: Seq<char>)
+    requires t.len() >= 2, t[0] == '/', t[1] == '*',
+    ensures boff(t, 2) == 2, is_boundary(t, 2), bi(t, 2) == 2,
+{
+    reveal_with_fuel(boff, 3);
+    assert(boff(t, 2) == 2);
+    assert(is_boundary(t, 2));
+    let j = bi(t, 2);
+    assert(0 <= j <= t.len() && boff(t, j) == 2);
+    lemma_boff_inj(t, j, 2);
+}
+proof fn lemma_starts_slash_star(t: Seq<char>)
+    ensures seq!['/', '*'].is_prefix_of(t) == (t.len() >= 2 && t[0] == '/' && t[1] == '*'),
+{
+    let u = seq!['/', '*'];
+    if u.is_prefix_of(t) { assert(t[0] == u[0] && t[1] == u[1]); }
+    else if t.len() >= 2 && t[0] == '/' && t[1] == '*' { assert(u =~= t.subrange(0, 2)); }
+}
